@@ -638,6 +638,10 @@ def make_scripted_op(R: Real, r: random.Random, rec: RecRng, n_parents: int, num
 
         def crossover(self, parents_params: Any, rng: Any, study: Any, search_space_bounds: Any) -> Any:
             self.seen.append((np.array(parents_params, dtype=float).copy(), np.array(search_space_bounds, dtype=float).copy()))
+            if len(self.seen) > max_bad + 200:
+                # perform_crossover has no retry cap: if even the parents' own values are rejected (a broken projection /
+                # containment test in the tree under test) it would spin for ever and the recording would eat the memory
+                raise RuntimeError("harness: perform_crossover asked the operator %d times; members of the domain keep being rejected" % len(self.seen))
             good = all_good or len(self.seen) > max_bad
             raw = []
             for j, d in enumerate(num_space.values()):
